@@ -299,6 +299,11 @@ pub fn gen_model(rng: &mut Rng, tier: Tier) -> Model {
             let at = r4.usize_below(xff.len() + 1);
             xff.insert(at, ["unknown", "10.0.0.1:4711", "[2001:db8::1]", "_hidden"][r4.usize_below(4)].to_string());
         }
+        // one model in forty has a long forwarding chain (around and far above 32 entries)
+        if r4.chance(1, 40) {
+            let n = [31usize, 32, 33, 34, 64, 200][r4.usize_below(6)];
+            xff = (0..n).map(|_| random_ip(&mut r4)).collect();
+        }
     }
     let has_body = rng.chance(1, 2);
     let blen = if !has_body {
